@@ -275,7 +275,9 @@ def random_schedule(rng, front, n_events, weights=None, junk=None, verdicts=None
                 if front == 'legacy' and not df and rng.random() < 0.08:
                     t['life'] = 0          # times out in the instant it is expressed (NdnPit!ExpressNow)
                 if a == 'Express':
-                    emit({'a': a, 't': t, 'defer': df})
+                    # every fifth appv2 Interest is expressed with the library's own pass_all validator (answers at once)
+                    pa = front == 'v2' and not df and rng.random() < 0.2
+                    emit(dict({'a': a, 't': t, 'defer': df}, **({'pa': True} if pa else {})))
                     entries.append({'t': t, 'dl': now + t['life']})
                 else:
                     emit({'a': a, 't': t})
@@ -289,9 +291,13 @@ def random_schedule(rng, front, n_events, weights=None, junk=None, verdicts=None
                     ev = {'a': 'RecvDataFire', 'd': d, 'env': rng.choice(envs)}
                     run.apply(ev)
                     ev['post'] = run.post()
-                    evs.extend(pitkit.split_data_fire(ev))
+                    evs.extend(pitkit.split_delivery(ev, run.take_pa_called()))
                     continue
-                emit({'a': a, 'd': d, 'env': rng.choice(envs), 'x': x})
+                ev = {'a': a, 'd': d, 'env': rng.choice(envs), 'x': x}
+                run.apply(ev)
+                ev['post'] = run.post()
+                evs.extend(pitkit.split_delivery(ev, run.take_pa_called()))
+                continue
             elif a == 'RecvNack':
                 if entries and rng.random() < 0.8:
                     t = rng.choice(entries)['t']
